@@ -74,6 +74,10 @@ CLAIMED = {
          "Every Config case (<= 2 deviations from a good document: YAML shape, basedir, default, parameter list shapes, scrypt/argon2id value classes, unknown keys) is rendered as YAML and the loader's verdict compared (must / may / mustnot); every accepted configuration is used - add + authenticate per set - in a child process where a crash or hang is an outcome; sequences of on-disk configurations (valid, other base/default/sets, unparsable, unknown key, bad default, missing, directory failing the check) with SIGHUP are run on a real agent under continuous requests and the hook-reported outcome, the location/parameter set of subsequent writes and per-set logins are validated line by line against Reload.tla (never a mixture; in-flight requests answered).",
          "Memory-exhausting values (scrypt cost 31, argon2 memory 2^32-1) are not generated. One process per reload sequence (SIGHUP is process-wide).",
          "4/C18"),
+ "C19": ("TLC safety + liveness on the Hooks timing model (wrong thresholds and the no-drain variant refuted); real HooksCaller driven through timing scenarios with its loop events validated by TLC against TraceHooks; HookFiles case analysis replayed; agent-side notifications via TraceAgent",
+         "TLC checks NoChangeForgotten, AtMostTwoRoundsPerInterval, RoundCarriesCurrentStore and the liveness property EveryChangeCovered on the discrete-time Hooks model (free choice among ready select arms); on the code, a HooksCaller with a 180 ms rate limit and logging hook scripts is driven through 0/1/2/many changes per interval, changes just before/after the timer, reloads, gated new-store/notification races and a hanging hook; the loop's verif events are validated per scenario against TraceHooks (pending counter, leading/trailing rounds, store carried by each round, every change covered at the end), real time between rounds i and i+2 is bounded from below, the scripts' own logs give argument and WHAWTY_AUTH_STORE; every HookFiles case (kind x mode x hidden x directory mode) is materialised; the dispatcher's notifications are validated against TraceAgent.",
+         "Event order and lower time bounds only (no wall-clock closeness). The one-minute kill is exercised in the thorough tier.",
+         "4/C19"),
 }
 
 checks = []
